@@ -713,3 +713,70 @@ Definition chain_in_graph (links : list site) (fs : list string) : bool :=
 
 Definition chain_propagates (links : list site) (fs : list string) : bool :=
   forallb (fun h => forallb link_propagates (hop_links links (fst h) (snd h))) (chain_hops fs).
+
+(* ------------------------------------------------------------------------------------------ *)
+(** * 7. Specification (the statements of Properties_C11.v are built from these) *)
+
+(* a value that is certainly not NC_NOERR *)
+Definition nonzero (v : aval) : Prop :=
+  match v with VInt z => z <> 0%Z | VErr => True | VFail => True | VAny => False end.
+
+(* every possible outcome is `return v` with v certainly an error (and there is an outcome) *)
+Definition returns_error (outs : list outcome) : Prop :=
+  outs <> [] /\ forall o, In o outs -> exists v, o = ORet v /\ nonzero v.
+
+(* the function containing I/O site s returns an error when the MPI call fails with class c *)
+Definition site_returns_error (s : site) (c : errclass) : Prop :=
+  returns_error (run VFail (mpi2nc c) (s_body s)).
+
+(* the function containing link site l returns an error when the callee of l returned one *)
+Definition link_returns_error (l : site) : Prop :=
+  returns_error (run VErr 0%Z (s_body l)).
+
+(* g is f or a direct or indirect caller of f (static call graph = the generated link sites) *)
+Inductive calls_up (links : list site) (f : string) : string -> Prop :=
+| cu_refl : calls_up links f f
+| cu_step : forall l, In l links -> calls_up links f (s_callee l) -> calls_up links f (s_func l).
+
+(* link site l lies on a call path from some API down to function f *)
+Definition on_path (links : list site) (f : string) (l : site) : Prop :=
+  In l links /\ calls_up links f (s_callee l).
+
+(* C11 for one I/O site: for every error class, the enclosing function returns an error and so
+   does every function on every call path above it, up to the ncmpi_* entry points *)
+Definition no_silent_drop (links : list site) (s : site) : Prop :=
+  forall c : errclass, mpi2nc c <> NC_NOERR ->
+    site_returns_error s c /\
+    forall l, on_path links (s_func s) l -> link_returns_error l.
+
+(* what remains true when classes D are lost in the function itself and link sites B lose errors *)
+Definition no_silent_drop_except (links : list site) (s : site) (D : list errclass) (B : list string) : Prop :=
+  forall c : errclass, mpi2nc c <> NC_NOERR ->
+    (~ In c D -> site_returns_error s c) /\
+    forall l, on_path links (s_func s) l -> ~ In (s_id l) B -> link_returns_error l.
+
+(* the model really loses these classes in the function of s: some outcome is not an error return *)
+Definition drops_classes (s : site) (D : list errclass) : Prop :=
+  forall c, In c D -> ~ site_returns_error s c.
+
+Definition unknown_site (id : string) : site :=
+  mkSite id "" 0 0 "" "" KLink false "unknown site"
+         (mkBody [] [] [FSeq (SUnrec ("unknown site " ++ id))] false).
+
+Definition site_of (id : string) (l : list site) : site :=
+  match find_site id l with Some s => s | None => unknown_site id end.
+
+(* hand-written propagation table: every hop of the chain exists in the generated call graph and
+   every call of the hop passes the callee's error on *)
+Definition chain_reaches_api (links : list site) (fs : list string) : Prop :=
+  chain_in_graph links fs = true /\
+  forall caller callee l, In (caller, callee) (chain_hops fs) ->
+                          In l (hop_links links caller callee) -> link_returns_error l.
+
+Definition chain_reaches_api_except (links : list site) (fs : list string) (B : list string) : Prop :=
+  chain_in_graph links fs = true /\
+  forall caller callee l, In (caller, callee) (chain_hops fs) ->
+                          In l (hop_links links caller callee) -> ~ In (s_id l) B -> link_returns_error l.
+
+Definition chain_of (name : string) : list string :=
+  match find (fun x => String.eqb (fst x) name) chains with Some x => snd x | None => [] end.
